@@ -239,7 +239,7 @@ func AnalyzeRun(p *load.Program, r *Roles, depth int) *RunResult {
 				AfterEvent:       caseAssumer(r, bc),
 				InitFacts:        nodeKindAssumer(r, bc),
 				Monitors:         []eng.Monitor{life, batch},
-				DropReturnStates: true,
+				DropReturnStates: true, IndexEvents: true,
 				MaxStates:        100000, SharedStates: &shared, SharedMax: 1200000,
 				DebugFn: DebugFn, DebugBlock: DebugBlock,
 			}
